@@ -42,6 +42,8 @@ from fractions import Fraction
 import numpy as np
 
 ID = "C16"
+# computational entry points whose results are watched by the engine's retained-result oracle (mc/explore.py)
+RETAIN = [('hydrodiy.gis.grid', 'Catchment.intersect'), ('hydrodiy.gis.grid', 'voronoi')]
 TECHNIQUE = ("bounded exhaustive enumeration of (catchment cell set, coarse grid, offsets, filled flag) and of "
              "(cell set, Voronoi point tuples) on the real Catchment.intersect / voronoi, judged by an exact "
              "integer model in half-fine-cell units")
